@@ -378,7 +378,7 @@ func (m *Model) checkC09(i int, pre *view, v view, e, res string) []common.Viola
 		}
 	}
 	// a vertex created by this node's proposal: parents were valid tips, weight = max+1
-	if pre != nil && evKind(e) == "P" && res == "ok" && m.lastNew != nil && atoi(strings.Split(e, ":")[1]) == i {
+	if pre != nil && (evKind(e) == "P" || evKind(e) == "PC") && res == "ok" && m.lastNew != nil && atoi(strings.Split(e, ":")[1]) == i {
 		x := *m.lastNew
 		m.counters["C09.proposals"]++
 		var mw uint64
